@@ -16,8 +16,8 @@ import sys
 from pvmon import gen
 
 PLAN = {
-    "quick": {"configs": ["ext1", "ext0"], "nshards": 8, "timeout": 900},
-    "thorough": {"configs": ["ext1", "ext0"], "nshards": 16, "timeout": 3400, "suite": ["ext1"]},
+    "quick": {"configs": ["ext1", "ext0"], "nshards": 8, "timeout": 900, "calendar_first": [0, 6, 0, 5]},
+    "thorough": {"configs": ["ext1", "ext0"], "nshards": 16, "timeout": 3400, "suite": ["ext1"], "calendar_first": [0, 6, 0, 5]},
 }
 DECIDING = ["is_leap", "is_long_year", "days_in_year", "week_day", "local_time", "getters", "backend_eq"]
 FLOORS = {"quick": {"is_leap": 19998, "is_long_year": 19998, "days_in_year": 19998, "week_day": 500000, "local_time": 100000,
@@ -153,8 +153,7 @@ def _tz(P, zn):
 def _getters(M, P, d, w):
     """judge the eight getters on Date and DateTime for native date d"""
     y, m, dd = d.year, d.month, d.day
-    mc = calendar.monthcalendar(y, m)
-    wom = next(i for i, row in enumerate(mc) if dd in row) + 1
+    wom = (dd - 1 + dt.date(y, m, 1).weekday()) // 7 + 1      # row of the Monday-first month grid (no use of calendar's global first weekday)
     exp = (d.weekday(), d.timetuple().tm_yday, d.isocalendar()[1], wom, calendar.monthrange(y, m)[1], (m - 1) // 3 + 1,
            calendar.isleap(y), dt.date(y, 12, 28).isocalendar()[1] == 53)
     # the getters depend on the calendar date only: a naive value at the last microsecond of the day and a zone-aware one
